@@ -188,9 +188,10 @@ def _run(chk):
     # exhaustive over the alphabet {J0, J1, J2, reset} up to length 3 (quick) / 4 (thorough); histories of length <= 2
     # also over the orthogonal-row matrix J3
     L = 3 if q else 4
-    ex_cfg = ([(2, 2, 1.0, "f64", 3), (3, 2, 0.1, "f64", 2), (2, 3, 0.5, "f32", 2)] if q else
+    # max_norm = 0 (rescaling disabled) with k >= 2 is enumerated too, not left to the random histories
+    ex_cfg = ([(2, 2, 1.0, "f64", 3), (3, 2, 0.1, "f64", 2), (2, 3, 0.5, "f32", 2), (2, 2, 0.0, "f64", 2)] if q else
               [(2, 2, 1.0, "f64", 4), (3, 3, 0.1, "f32", 4), (2, 1, 0.5, "f64", 4), (4, 4, 1.0, "f64", 3),
-               (3, 2, 0.1, "f64", 4), (2, 3, 0.5, "f32", 4)])
+               (3, 2, 0.1, "f64", 4), (2, 3, 0.5, "f32", 4), (2, 2, 0.0, "f64", 3), (3, 3, 0.0, "f32", 3)])
     for (m, k, mn, dt, L) in ex_cfg:
         mats = alphabet(m, rng)
         for ln in range(1, L + 1):
